@@ -185,6 +185,8 @@ def monitor_failures(pid, cfg, script):
     lines = open(script).read().splitlines()
     rounds = vlib.parse_obs(script + ".obs")
     mon_text = open(script + ".mon").read() if os.path.exists(script + ".mon") else ""
+    if mon_text.startswith("CRASH") or mon_text.startswith("HANG"):
+        return [mon_text.splitlines()[0] + " (the program built from the script crashed or never became quiescent)"]
     run = monitors.Run(lines, rounds)
     out = []
     for nm in names:
@@ -326,7 +328,8 @@ def main():
         cls = classify(r, failures) if classify else None
         for k in known:
             if cls and k.get("class") == cls:
-                known_lines.append("KNOWN-FINDING: property=%s %s (%s)" % (pid, k["_line"][len("finding:"):].strip(), os.path.basename(r["script"])))
+                rest = " ".join(w for w in k["_line"][len("finding:"):].split() if not w.startswith("property="))
+                known_lines.append("KNOWN-FINDING: property=%s %s" % (pid, rest))
                 return
         lines = open(r["script"]).read().splitlines()
 
@@ -343,42 +346,32 @@ def main():
                        original_script=lines, failures=failures[:10])
         violations.append((write_replay(pid, payload), ""))
 
-    for r, mf in mon_fail[:3]:
+    for r, mf in mon_fail[:12]:
         handle_failure(r, mf, "monitor")
+        if violations:
+            break
 
     tie_broken = bool(problems) or bool(diverged)
-    if not violations and tie_broken and not mon_fail:
-        # search for a concrete failing input: doubled budget on the same families, monitors only
-        found = False
-        if diverged or problems:
-            cfg2 = dict(cfg)
-            cfg2["families"] = [(f, ft, n * 2) for (f, ft, n) in cfg["families"]]
-            runs2, _ = run_family_set(pid, cfg2, tier, seed + 7777)
-            for r in runs2:
-                mf = monitor_failures(pid, cfg, r["script"])
-                if mf:
-                    handle_failure(r, mf, "monitor")
-                    found = True
+    if not violations and tie_broken:
+        # the proof or the correspondence no longer checks: search for a concrete failing input
+        # (same families, doubled budget, another seed), judged by the monitors alone
+        cfg2 = dict(cfg)
+        cfg2["families"] = [(f, ft, n * 2) for (f, ft, n) in cfg["families"]]
+        runs2, _ = run_family_set(pid, cfg2, tier, seed + 7777)
+        for r in runs2:
+            mf = monitor_failures(pid, cfg, r["script"])
+            if mf:
+                handle_failure(r, mf, "monitor")
+                if violations:
                     break
-        if not found:
+        if not violations:
             if diverged:
                 r, out = diverged[0]
-                cls = classify(r, [out]) if classify else None
-                matched = False
-                for k in known:
-                    if cls and k.get("class") == cls:
-                        matched = True
-                        for (rr, oo) in diverged:
-                            if classify(rr, [oo]) != cls:
-                                matched = False
-                if matched and not problems:
-                    known_lines.append("KNOWN-FINDING: property=%s %s" % (pid, known[0]["_line"][len("finding:"):].strip()))
-                else:
-                    lines = open(r["script"]).read().splitlines()
-                    payload = dict(property=pid, kind="correspondence", feats=list(r["feats"]), seed=seed, script=lines,
-                                   no_longer_checks="model acceptance of the observed rounds (projection %s)" % cfg.get("projection", pid),
-                                   detail=out[-6000:], also=problems)
-                    violations.append((write_replay(pid, payload), " no-failing-input-found"))
+                lines = open(r["script"]).read().splitlines()
+                payload = dict(property=pid, kind="correspondence", feats=list(r["feats"]), seed=seed, script=lines,
+                               no_longer_checks="model acceptance of the observed rounds (projection %s); %d of %d scripts diverge" % (cfg.get("projection", pid), len(diverged), len(runs)),
+                               detail=out[-6000:], also=problems)
+                violations.append((write_replay(pid, payload), " no-failing-input-found"))
             else:
                 payload = dict(property=pid, kind="proof", seed=seed, no_longer_checks=broken_theorem, detail=problems)
                 violations.append((write_replay(pid, payload), " no-failing-input-found"))
@@ -413,6 +406,7 @@ def main():
     json.dump(ev, open(os.path.join(EVID, "%s.json" % pid), "w"), indent=1)
 
     if violations:
+        violations.sort(key=lambda v: 1 if v[1] else 0)   # a concrete failing input first
         for (p, suffix) in violations[:1]:
             print("VIOLATION property=%s replay=%s%s" % (pid, p, suffix))
         return 1
